@@ -68,8 +68,8 @@ IInit == \E k \in StartKernels :
 
 \* ---- caller ---------------------------------------------------------------------------------------
 ISet == st.stage = "out" /\ \E id \in Ids : \E s \in SetMenu(id) : SetSet(id, s) /\ UNCHANGED ivars
-IAdd == st.stage = "out" /\ \E id \in DOMAIN desired : \E m \in Pool(id) : m \notin desired[id].members /\ AddMembers(id, {m}) /\ UNCHANGED ivars
-IDel == st.stage = "out" /\ \E id \in DOMAIN desired : \E m \in desired[id].members : RemoveMembers(id, {m}) /\ UNCHANGED ivars
+IAdd == Rich >= 1 /\ st.stage = "out" /\ \E id \in DOMAIN desired : \E m \in Pool(id) : m \notin desired[id].members /\ AddMembers(id, {m}) /\ UNCHANGED ivars
+IDel == Rich >= 1 /\ st.stage = "out" /\ \E id \in DOMAIN desired : \E m \in desired[id].members : RemoveMembers(id, {m}) /\ UNCHANGED ivars
 IRemove == st.stage = "out" /\ \E id \in DOMAIN desired : RemoveSet(id) /\ UNCHANGED ivars
 IQueueResync == st.stage = "out" /\ ~st.needResync /\ QueueResync /\ st' = [st EXCEPT !.needResync = TRUE] /\ UNCHANGED <<view, queue, nEdits, nFails>>
 \* ---- environment ----------------------------------------------------------------------------------
@@ -112,7 +112,8 @@ IDestroy == /\ phase.at = "deletions" /\ Strays(view) # {}
                /\ Cmd("destroy", n, ok, FALSE, IF ok THEN Drop(kernel, n) ELSE kernel)
                /\ view' = Drop(view, n)
             /\ UNCHANGED <<queue, st, nEdits, nFails>>
-IDeletionsEnd == /\ phase.at = "deletions"
+\* (ApplyDeletions is repeated by the main loop until nothing is pending)
+IDeletionsEnd == /\ phase.at = "deletions" /\ Strays(view) = {}
                  /\ DeletionsEnd(Strays(view) # {})
                  /\ st' = [st EXCEPT !.stage = "out"] /\ UNCHANGED <<view, queue, nEdits, nFails>>
 
